@@ -2,6 +2,7 @@
 //! Every library call goes through `call`, which records the entry point (for crash attribution),
 //! catches panics and counts outcomes.
 use crate::panicmon::{guard, PanicRec};
+use pdf::primitive::{PdfString, Date};
 use pdf::any::AnySync;
 use pdf::backend::Backend;
 use pdf::content::Op;
@@ -15,13 +16,13 @@ use std::sync::atomic::{AtomicUsize, Ordering};
 use std::sync::Arc;
 
 pub static ENTRY: AtomicUsize = AtomicUsize::new(0);
-pub const ENTRIES: [&str; 51] = [
+pub const ENTRIES: [&str; 52] = [
     "idle", "load", "version", "num_pages", "get_page", "pages_iter", "media_box", "crop_box", "page_resources", "contents_operations",
     "annotations_load", "font_load", "font_widths", "widths_get", "font_to_unicode", "font_embedded_data", "font_encoding", "xobject_get",
     "raw_image_data", "image_data", "form_operations", "form_resources", "pattern_get", "gs_font_get", "names_walk", "page_labels_walk",
     "outline_get", "forms_field_get", "metadata_data", "resolve_n", "get_dictionary", "get_stream_data", "get_pagesnode", "get_font",
     "get_xobject", "get_objectstream", "function_from_primitive", "function_apply", "colorspace_from_primitive", "scan", "dests", "struct_tree",
-    "appearance", "embedded_files_walk", "cid_to_gid", "catalog", "trailer", "import_clone_page", "import_build", "import_reload", "other",
+    "appearance", "embedded_files_walk", "cid_to_gid", "catalog", "trailer", "import_clone_page", "import_build", "import_reload", "text_strings", "other",
 ];
 pub fn entry_id(name: &str) -> usize { ENTRIES.iter().position(|e| *e == name).unwrap_or(ENTRIES.len() - 1) }
 
@@ -53,6 +54,17 @@ pub fn call<T>(w: &mut WalkStats, entry: &'static str, f: impl FnOnce() -> Resul
 }
 /// call returning a plain value
 pub fn call_v<T>(w: &mut WalkStats, entry: &'static str, f: impl FnOnce() -> T) -> Option<T> { call(w, entry, || Ok(f())) }
+
+fn collect_strings<'a>(p: &'a Primitive, out: &mut Vec<&'a PdfString>, depth: usize) {
+    if depth > 6 || out.len() >= 32 { return; }
+    match p {
+        Primitive::String(s) => out.push(s),
+        Primitive::Array(a) => for x in a.iter().take(64) { collect_strings(x, out, depth + 1); },
+        Primitive::Dictionary(d) => for (_, x) in d.iter().take(64) { collect_strings(x, out, depth + 1); },
+        Primitive::Stream(s) => for (_, x) in s.info.iter().take(64) { collect_strings(x, out, depth + 1); },
+        _ => {}
+    }
+}
 
 fn walk_font(font: &Font, res: &impl Resolve, w: &mut WalkStats) {
     if let Some(Some(widths)) = call(w, "font_widths", || font.widths(res)) {
@@ -189,6 +201,14 @@ where
                 }
             }
             if matches!(p, Primitive::Array(_) | Primitive::Name(_)) { call(w, "colorspace_from_primitive", || ColorSpace::from_primitive(p.clone(), &res).map(|_| ())); }
+            // every string of the object through the text-string and date readers (PDFDocEncoding / UTF-16BE / UTF-8 decisions, date fields)
+            let mut strs: Vec<&PdfString> = Vec::new();
+            collect_strings(&p, &mut strs, 0);
+            for s in strs.into_iter().take(32) {
+                call(w, "text_strings", || s.to_string().map(|t| t.len()));
+                call_v(w, "text_strings", || s.to_string_lossy().len());
+                call(w, "text_strings", || Date::from_primitive(Primitive::String(s.clone()), &res).map(|_| ()));
+            }
         }
     }
     // recovery scan
